@@ -72,6 +72,18 @@ type Opts struct {
 	Last int
 }
 
+// LeadOmit has only omitted members before its first shown one: an unexported
+// field, a "-" field, an empty omitempty field and a zero omitzero field.
+type LeadOmit struct {
+	a int
+	B int    `json:"-"`
+	C string `json:"c,omitempty"`
+	D int    `json:"d,omitzero"`
+	E string `json:"e"`
+	F *int   `json:"f,omitempty"`
+	G string
+}
+
 type Inner struct {
 	A int
 	B string `json:"b,omitempty"`
@@ -211,6 +223,7 @@ var named = map[string]reflect.Type{
 	"Mixed":        reflect.TypeFor[Mixed](),
 	"JSer":         reflect.TypeFor[JSer](),
 	"Opts":         reflect.TypeFor[Opts](),
+	"LeadOmit":     reflect.TypeFor[LeadOmit](),
 }
 
 var namedByType = func() map[reflect.Type]string {
